@@ -1239,6 +1239,32 @@ impl TypeChecker {
         }
     }
 
+    /// Occurs check: does the type variable `var` appear inside `t`?
+    ///
+    /// Binding a variable to a type that contains it would create an
+    /// infinite type that every later traversal recurses into forever.
+    fn occurs(&mut self, var: usize, t: &Type) -> bool {
+        match self.resolve_type(t) {
+            Type::Var(i)
+            | Type::IntVar(i, _)
+            | Type::FloatVar(i) => i == var,
+            Type::RecordVar(i, fields) => {
+                i == var || fields.iter().any(|(_, t)| self.occurs(var, t))
+            }
+            Type::Record(fields) => {
+                fields.iter().any(|(_, t)| self.occurs(var, t))
+            }
+            Type::Function(params, ret) => {
+                params.iter().any(|t| self.occurs(var, t))
+                    || self.occurs(var, &ret)
+            }
+            Type::Name(name) => {
+                name.arguments.iter().any(|t| self.occurs(var, t))
+            }
+            Type::Unit | Type::Never | Type::ExplicitVar(_) => false,
+        }
+    }
+
     fn unify_inner(&mut self, a: &Type, b: &Type) -> Option<Type> {
         use Type::*;
         let a = self.resolve_type(a);
@@ -1301,10 +1327,16 @@ impl TypeChecker {
                 Name(name)
             }
             (Var(a), b) => {
+                if self.occurs(a, &b) {
+                    return None;
+                }
                 self.type_info.unionfind.set(a, b.clone());
                 b.clone()
             }
             (a, Var(b)) => {
+                if self.occurs(b, &a) {
+                    return None;
+                }
                 self.type_info.unionfind.set(b, a.clone());
                 a.clone()
             }
